@@ -221,6 +221,9 @@ func offsetOf(t *Term) string {
 	return offsetKey(t.A[1])
 }
 
+// OffsetKey is the exported form of offsetKey.
+func OffsetKey(t *Term) string { return offsetKey(t) }
+
 // offsetKey renders an offset expression in a canonical linear form: the sum of its constant parts
 // followed by its symbolic parts ("#34", "bin:+(#34,len(x))"), "" for a loop-carried cursor. A cursor
 // that is advanced in straight-line code (pos += 2; pos += len(x)) therefore yields the same offsets
